@@ -1700,7 +1700,24 @@ func discover(responders int, dup bool, failFirst ...bool) string {
 	failed := 0
 	if len(failFirst) > 0 && failFirst[0] {
 		// every token is first used by a discovery whose SEND fails (context already over): that call must leave nothing
-		// behind, the token must be free for the real discovery below and its responses must reach the real receiver
+		// behind, the token must be free for the real discovery below and its responses must reach the real receiver.
+		// The server must be serving by then: since repair F38 a discovery issued BEFORE Serve returns with its context's
+		// error without registering anything, and the send would not be reached.
+		{
+			wctx, wcancel := context.WithTimeout(context.Background(), 2*time.Second)
+			warm := pool.NewMessage(wctx)
+			_ = warm.SetupGet("/oic/res", message.Token{0xD1, 0x5C, 0x0E})
+			warm.SetMessageID(2899)
+			warm.SetType(message.NonConfirmable)
+			wdone := make(chan struct{})
+			go func() {
+				defer close(wdone)
+				_ = s.DiscoveryRequest(warm, "127.0.0.1:9", func(*udpclient.Conn, *pool.Message) {})
+			}()
+			time.Sleep(50 * time.Millisecond)
+			wcancel()
+			<-wdone
+		}
 		for i, a := range addrs {
 			ctx, cancel := context.WithCancel(context.Background())
 			cancel()
